@@ -33,6 +33,7 @@ FORBIDDEN = re.compile(
 
 sys.path.insert(0, HERE)
 import extract_constants  # noqa: E402
+import py2lean  # noqa: E402
 
 
 def setup_repo_import(disable_jit=True):
@@ -104,9 +105,11 @@ NAMESPACE_RE = re.compile(r"^namespace\s+([\w.]+)", re.M)
 class LeanSide:
     """Regenerates constants, builds the property's modules, audits axioms."""
 
-    def __init__(self, prop_modules, helper_modules):
-        self.prop_modules = prop_modules      # e.g. ["FastTicc.Props.C01"]
-        self.helper_modules = helper_modules  # e.g. ["FastTicc.Proofs.Viterbi"]
+    def __init__(self, prop_modules, helper_modules, translated=None):
+        self.prop_modules = list(prop_modules)      # e.g. ["FastTicc.Props.C01"]
+        self.helper_modules = list(helper_modules)  # e.g. ["FastTicc.Proofs.Viterbi"]
+        # {module of "translated code = model" theorems: [translated functions it is about]}
+        self.translated = dict(translated or {})
         self.result = {}
 
     def _path(self, module):
@@ -140,6 +143,25 @@ class LeanSide:
         res["constants"] = values
         res["constants_unavailable"] = unavailable
         res["constants_changed"] = {k: list(v) for k, v in changed.items()}
+        # the translated kernels: Generated/Kernels.lean is rewritten from the source's AST
+        avail, unavail, kchanged = py2lean.regenerate(REPO, LEAN_DIR)
+        res["translated_functions"] = avail
+        res["translation_unavailable"] = unavail
+        res["translated_text_changed"] = bool(kchanged)
+        res["translated_modules"] = []
+        res["translated_modules_skipped"] = {}
+        for module, funcs in self.translated.items():
+            missing = [f for f in funcs if f not in avail]
+            if missing:
+                # an extraction miss alone never raises an alarm: the equivalence theorems about these functions
+                # cannot be stated; only the differential tie remains for them
+                res["translated_modules_skipped"][module] = missing
+            else:
+                res["translated_modules"].append(module)
+        if res["translated_modules"]:
+            self.prop_modules = self.prop_modules + [m for m in res["translated_modules"] if m not in self.prop_modules]
+            if "FastTicc.Proofs.Translated" not in self.helper_modules:
+                self.helper_modules = self.helper_modules + ["FastTicc.Proofs.Translated"]
         # forbidden constructs
         for module in self.prop_modules + self.helper_modules:
             try:
@@ -280,6 +302,22 @@ class Ctx:
     def elapsed(self):
         return time.time() - self.t0
 
+    # ---- the translated code, run by the model driver on the inputs the implementation was run on
+    def gen_compare(self, name, cases, what=None):
+        """cases: list of (driver argument string, expected protocol output, replay data).  The function translated
+        from the source (Generated/Kernels.lean) must return exactly what the implementation returned."""
+        if not cases:
+            return
+        outs = self.driver.run([f"gen {name} {a}" for (a, _e, _d) in cases])
+        for (a, e, d), out in zip(cases, outs):
+            if out == "unavailable":
+                self.count(f"translated:{name}:unavailable")
+                continue
+            self.count(f"translated:{name}:compared")
+            if out != e:
+                self.violation("correspondence-break", what or f"translated {name} vs the implementation",
+                               {"function": name, "args": a, "translated": out, "impl": e, "input": d})
+
     # ---- violations
     def violation(self, kind, what, data, finding_sig=None):
         """kind: impl-violation | correspondence-break | proof-break.
@@ -407,7 +445,10 @@ def write_evidence(ctx, exit_code):
             "Lean 4.33.0 kernel; axioms used by the property theorems: "
             + ", ".join(sorted({a for axs in lean.get("axioms", {}).values() for a in axs}) or ["none"]),
             "Mathlib v4.33.0 definitions used in statements",
-            "hand-written Lean model, tied to the code only by the differential correspondence run here",
+            "hand-written Lean model, tied to the code by the differential correspondence run here; for the functions "
+            "listed under translated_functions additionally by the translator harness/py2lean.py (Python AST -> "
+            "Generated/Kernels.lean over the primitives of Model/Py.lean) and the equivalence theorems of the Props/Tr* "
+            "modules, and the translated code itself is run against the implementation on the same inputs",
             "Python harness: generators, canonicalisation, oracles, line protocol, constant extractor",
         ] + ctx.assumptions,
         "explanation": ctx.explanation,
@@ -417,6 +458,10 @@ def write_evidence(ctx, exit_code):
         "constants": lean.get("constants", {}),
         "constants_unavailable": lean.get("constants_unavailable", []),
         "constants_changed_vs_expected": lean.get("constants_changed", {}),
+        "translated_functions": lean.get("translated_functions", []),
+        "translation_unavailable": lean.get("translation_unavailable", {}),
+        "translated_equivalence_modules": lean.get("translated_modules", []),
+        "translated_equivalence_modules_skipped": lean.get("translated_modules_skipped", {}),
         "lean_failures": lean.get("failures", []),
         "model_driver_ops": ctx.driver.calls,
         "known_findings_hit": ctx.known_hits,
